@@ -286,6 +286,7 @@ package dt
 //@   ensures others: forall m: List :: withtrig(mark(m), m != list && old(wf(m)) ==> wf(m) && m.elems == old(m.elems))
 //@   ensures stay: list.root == old(list.root) && (forall e: Element :: old(allocated(e)) && !old(member(list, e)) ==> e.list == old(e.list))
 //@   ensures only: forall e: Element :: old(allocated(e)) && (member(list, e) || member(result, e)) ==> old(member(list, e))
+//@   ensures nofresh: (forall i: int :: 0 <= i && i < len(list.elems) ==> wasallocated(list.elems[i])) && (forall i: int :: 0 <= i && i < len(result.elems) ==> wasallocated(result.elems[i]))
 //@   ensures members: forall e: Element :: old(allocated(e)) && old(member(list, e)) ==> member(list, e) || member(result, e)
 //@   loop 1 invariant forall e: Element :: old(allocated(e)) && old(member(list, e)) ==> member(list, e) || member(out, e)
 //@   loop 1 invariant list.root == old(list.root) && (forall e: Element :: old(allocated(e)) && !old(member(list, e)) ==> e.list == old(e.list))
@@ -321,6 +322,10 @@ package dt
 //@   ensures size: len(result.elems) == len(old(a.elems)) + len(old(b.elems))
 //@   ensures stay: forall e: Element :: old(allocated(e)) && !old(member(a, e)) && !old(member(b, e)) ==> e.list == old(e.list)
 //@   ensures only: forall e: Element :: old(allocated(e)) && member(result, e) ==> old(member(a, e)) || old(member(b, e))
+//@   ensures nofresh: forall i: int :: 0 <= i && i < len(result.elems) ==> wasallocated(result.elems[i])
+//@   loop 1 invariant forall i: int :: 0 <= i && i < len(a.elems) ==> wasallocated(a.elems[i])
+//@   loop 1 invariant forall i: int :: 0 <= i && i < len(b.elems) ==> wasallocated(b.elems[i])
+//@   loop 1 invariant forall i: int :: 0 <= i && i < len(out.elems) ==> wasallocated(out.elems[i])
 //@   ensures members: forall e: Element :: old(allocated(e)) && (old(member(a, e)) || old(member(b, e))) ==> member(result, e)
 //@   ensures others: forall m: List :: withtrig(mark(m), m != a && m != b && old(wf(m)) ==> wf(m) && m.elems == old(m.elems))
 //@   loop 1 invariant wf(a) && wf(b) && wf(out) && fresh(out) && a != b && a.root == old(a.root) && b.root == old(b.root)
@@ -333,10 +338,10 @@ package dt
 
 //@ func mergeSort
 //@   props C17
-//@   requires lt != nil && head != nil && wf(head) && swo(lt)
+//@   requires lt != nil && head != nil && lwf(head) && swo(lt)
 //@   ensures sorted: sortedAll(result, lt)
 //@   modifies List.root, List.length, Element.list, Element.next, Element.prev, List.elems, List.lastIns, Element.idx
-//@   ensures wf(result) && len(result.elems) == len(old(head.elems))
+//@   ensures lwf(result) && len(result.elems) == len(old(head.elems))
 //@   ensures short: len(old(head.elems)) < 2 ==> result == old(head) && result.elems == old(head.elems)
 //@   ensures long: len(old(head.elems)) >= 2 ==> fresh(result) && wf(old(head)) && len(old(head).elems) == 0
 //@   ensures members: forall e: Element :: old(allocated(e)) && old(member(head, e)) ==> member(result, e)
@@ -346,11 +351,12 @@ package dt
 
 //@ func (*List).SortMerge
 //@   props C17 C18
-//@   requires l != nil && wf(l) && lt != nil && swo(lt)
+//@   requires l != nil && lwf(l) && lt != nil && swo(lt)
 //@   ensures sorted: sortedAll(l, lt)
 //@   modifies List.root, List.length, Element.list, Element.next, Element.prev, List.elems, List.lastIns, Element.idx
-//@   ensures wf(l) && len(l.elems) == len(old(l.elems))
+//@   ensures lwf(l) && len(l.elems) == len(old(l.elems))
 //@   ensures members: forall e: Element :: old(allocated(e)) && old(member(l, e)) ==> member(l, e)
+//@   ensures only: forall e: Element :: old(allocated(e)) && member(l, e) ==> old(member(l, e))
 //@   ensures others: forall m: List :: withtrig(mark(m), m != l && old(wf(m)) ==> wf(m) && m.elems == old(m.elems))
 
 // ---------------------------------------------------------------------------
@@ -359,9 +365,11 @@ package dt
 // ---------------------------------------------------------------------------
 
 // coupling of index and order list (the set is initialised: hash != nil)
-//@ pred setinv(s *Set) = s != nil && s.hash != nil && (s.list == nil ==> (forall k: int :: haskey(s.hash, k) ==> s.hash[k] == nil)) && (s.list != nil ==> lwf(s.list) && len(s.list.elems) == len(s.hash)
-//@ |  && (forall i: int :: 0 <= i && i < len(s.list.elems) ==> haskey(s.hash, cast(s.list.elems[i], "*Element").item) && s.hash[cast(s.list.elems[i], "*Element").item] == s.list.elems[i])
+//@ pred setcore(s *Set) = s != nil && s.hash != nil && (s.list == nil ==> (forall k: int :: haskey(s.hash, k) ==> s.hash[k] == nil)) && (s.list != nil ==> lwf(s.list) && len(s.list.elems) == len(s.hash)
 //@ |  && (forall k: int :: haskey(s.hash, k) ==> s.hash[k] != nil && member(s.list, s.hash[k]) && cast(s.hash[k], "*Element").item == k))
+// every order element is indexed by its value
+//@ pred setidx(s *Set) = s.list != nil ==> (forall i: int :: 0 <= i && i < len(s.list.elems) ==> haskey(s.hash, cast(s.list.elems[i], "*Element").item) && s.hash[cast(s.list.elems[i], "*Element").item] == s.list.elems[i])
+//@ pred setinv(s *Set) = setcore(s) && setidx(s)
 // a set that may not have been used yet (hash == nil: empty)
 //@ pred setpre(s *Set) = s != nil && (s.hash == nil ? (s.list == nil || (lwf(s.list) && len(s.list.elems) == 0)) : setinv(s))
 
@@ -449,22 +457,24 @@ package dt
 
 //@ func (*List).SortQuick
 //@   props C17 C18
-//@   requires l != nil && wf(l) && lt != nil
+//@   requires l != nil && lwf(l) && lt != nil
 //@   modifies l.root, List.length, Element.list, Element.next, Element.prev, List.elems, List.lastIns, Element.idx
-//@   ensures wf(l) && len(l.elems) == len(old(l.elems))
+//@   ensures lwf(l) && len(l.elems) == len(old(l.elems))
 //@   ensures perm: forall k: int :: 0 <= k && k < len(l.elems) ==> 0 <= sortperm(k) && sortperm(k) < len(l.elems) && l.elems[k] == old(l.elems)[sortperm(k)]
 //@   ensures bij: forall k: int :: 0 <= k && k < len(l.elems) ==> 0 <= sortinv(k) && sortinv(k) < len(l.elems) && sortperm(sortinv(k)) == k && sortinv(sortperm(k)) == k
 //@   ensures sorted: forall p: int, q: int :: 0 <= p && p < q && q < len(l.elems) ==> !apply(lt, cast(l.elems[q], "*Element").item, cast(l.elems[p], "*Element").item)
+//@   ensures members: forall e: Element :: old(allocated(e)) && old(member(l, e)) ==> member(l, e)
+//@   ensures only: forall e: Element :: old(allocated(e)) && member(l, e) ==> old(member(l, e))
 //@   ensures stable: forall p: int, q: int :: 0 <= p && p < q && q < len(l.elems) && !apply(lt, cast(l.elems[p], "*Element").item, cast(l.elems[q], "*Element").item) ==> sortperm(p) < sortperm(q)
 //@   ensures others: forall m: List :: withtrig(mark(m), m != l && old(wf(m)) ==> wf(m) && m.elems == old(m.elems))
-//@   loop 1 invariant wf(l)
+//@   loop 1 invariant lwf(l)
 //@   loop 1 invariant len(elems) + len(l.elems) == len(old(l.elems))
 //@   loop 1 invariant l.elems == old(l.elems)[len(elems):] && fresh(backing(elems))
 //@   loop 1 invariant forall k: int :: 0 <= k && k < len(elems) ==> elems[k] == old(l.elems)[k] && elems[k] != nil && allocated(elems[k]) && elems[k].list == nil && elems[k].ok
 //@   loop 1 invariant forall a: int, b: int :: withmtrig(elems[a], elems[b], 0 <= a && a < b && b < len(elems) ==> elems[a] != elems[b])
 //@   loop 1 invariant forall m: List :: withtrig(mark(m), m != l && old(wf(m)) ==> wf(m) && m.elems == old(m.elems))
 //@   loop 1 decreases len(l.elems)
-//@   loop 2 invariant wf(l)
+//@   loop 2 invariant lwf(l)
 //@   loop 2 invariant 0 - 1 <= rangeindex && rangeindex < len(elems) && len(l.elems) == rangeindex + 1 && len(elems) == len(old(l.elems))
 //@   loop 2 invariant forall k: int :: 0 <= k && k <= rangeindex ==> l.elems[k] == elems[k]
 //@   loop 2 invariant forall k: int :: rangeindex < k && k < len(elems) ==> elems[k] != nil && allocated(elems[k]) && elems[k].list == nil && elems[k].ok
@@ -490,3 +500,26 @@ package dt
 //@   loop 1 invariant forall k: int :: visited(k) ==> haskey(s.hash, k) && s.hash[k] != nil && member(s.list, s.hash[k]) && cast(s.hash[k], "*Element").item == k
 //@   loop 1 invariant forall k: int :: haskey(s.hash, k) && !visited(k) ==> s.hash[k] == nil
 //@   loop 1 invariant forall i: int :: 0 <= i && i < len(s.list.elems) ==> visited(cast(s.list.elems[i], "*Element").item) && s.hash[cast(s.list.elems[i], "*Element").item] == s.list.elems[i]
+
+// Sorting keeps the set's members and the index/order coupling; the order is
+// sorted afterwards (SortQuick: stably, see List.SortQuick). NOT PROVED for
+// SortMerge: setidx (every order element is indexed) - it needs "merge sort
+// links no element that did not exist before" through the recursion, which
+// did not discharge; SortMerge therefore only establishes setcore.
+//@ func (*Set).SortQuick
+//@   props C18
+//@   requires setpre(s) && lt != nil
+//@   modifies s.hash, s.list, mapelems(s.hash), List.root, List.length, Element.list, Element.next, Element.prev, List.elems, List.lastIns, Element.idx
+//@   ensures setinv(s) && s.list != nil
+//@   ensures keys: forall k: int :: haskey(s.hash, k) == (old(s.hash) != nil && old(haskey(s.hash, k)))
+//@   ensures size: len(s.hash) == (old(s.hash) == nil ? 0 : old(len(s.hash)))
+//@   ensures sorted: forall p: int, q: int :: 0 <= p && p < q && q < len(s.list.elems) ==> !apply(lt, cast(s.list.elems[q], "*Element").item, cast(s.list.elems[p], "*Element").item)
+
+//@ func (*Set).SortMerge
+//@   props C18
+//@   requires setpre(s) && lt != nil && swo(lt)
+//@   modifies s.hash, s.list, mapelems(s.hash), List.root, List.length, Element.list, Element.next, Element.prev, List.elems, List.lastIns, Element.idx
+//@   ensures setcore(s) && s.list != nil
+//@   ensures keys: forall k: int :: haskey(s.hash, k) == (old(s.hash) != nil && old(haskey(s.hash, k)))
+//@   ensures size: len(s.hash) == (old(s.hash) == nil ? 0 : old(len(s.hash)))
+//@   ensures sorted: sortedAll(s.list, lt)
